@@ -22,6 +22,7 @@ type shim struct {
 	old           bool
 	teardownCalls int
 	tadCalls      int
+	transport     *Transport
 }
 
 var _ v1alpha1.StateClient = (*shim)(nil)
@@ -91,8 +92,107 @@ func (s *shim) List(ctx context.Context, in *v1alpha1.ListRequest, _ ...grpc.Cal
 	return &listClient{items: st.items}, nil
 }
 
+// Transport is the fault-injection handle of a piped watch transport.
+type Transport struct {
+	cur      *pipe
+	Down     int // refuse the next Down attempts to establish a watch stream
+	Attempts int
+}
+
+// Break tears the current watch stream down: the client's Recv fails with Unavailable, the
+// server-side handler's context is cancelled.  Messages not yet received are lost.
+func (t *Transport) Break() {
+	if t.cur != nil {
+		t.cur.brk()
+	}
+}
+
+// pipe is one watch stream: the server handler runs as a goroutine and hands every message to the
+// client synchronously (no buffering: a message the client has not taken is lost when the stream breaks).
+type pipe struct {
+	ctx    context.Context
+	cancel context.CancelFunc
+	msgs   chan *v1alpha1.WatchResponse
+	done   chan error
+	broken chan struct{}
+}
+
+func (p *pipe) brk() {
+	select {
+	case <-p.broken:
+	default:
+		close(p.broken)
+		p.cancel()
+	}
+}
+
+type pipeServer struct {
+	grpc.ServerStream
+	p *pipe
+}
+
+func (s pipeServer) Context() context.Context { return s.p.ctx }
+func (s pipeServer) Send(m *v1alpha1.WatchResponse) error {
+	select {
+	case s.p.msgs <- m:
+		return nil
+	case <-s.p.ctx.Done():
+		return status.Error(codes.Canceled, "stream closed")
+	}
+}
+
+type pipeClient struct {
+	grpc.ClientStream
+	p *pipe
+}
+
+func (c pipeClient) Recv() (*v1alpha1.WatchResponse, error) {
+	select {
+	case <-c.p.broken:
+		return nil, status.Error(codes.Unavailable, "transport is closing")
+	default:
+	}
+	select {
+	case m := <-c.p.msgs:
+		return m, nil
+	case <-c.p.broken:
+		return nil, status.Error(codes.Unavailable, "transport is closing")
+	case err := <-c.p.done:
+		if err == nil {
+			return nil, io.EOF
+		}
+		if _, ok := status.FromError(err); ok {
+			return nil, err
+		}
+		return nil, status.Error(codes.Unknown, err.Error())
+	}
+}
+
 func (s *shim) Watch(ctx context.Context, in *v1alpha1.WatchRequest, _ ...grpc.CallOption) (grpc.ServerStreamingClient[v1alpha1.WatchResponse], error) {
-	return nil, status.Error(codes.Unavailable, "watch is not part of this harness")
+	if s.transport == nil {
+		return nil, status.Error(codes.Unavailable, "watch is not part of this harness")
+	}
+	s.transport.Attempts++
+	if s.transport.Down > 0 {
+		s.transport.Down--
+		return nil, status.Error(codes.Unavailable, "connection refused")
+	}
+	pctx, cancel := context.WithCancel(ctx)
+	p := &pipe{ctx: pctx, cancel: cancel, msgs: make(chan *v1alpha1.WatchResponse), done: make(chan error, 1), broken: make(chan struct{})}
+	s.transport.cur = p
+	// the server works on its own copy of the request (the client mutates its request when retrying)
+	req := in.CloneVT()
+	go func() {
+		p.done <- s.srv.Watch(req, pipeServer{p: p})
+	}()
+	return pipeClient{p: p}, nil
+}
+
+// NewRemoteWithWatch is NewRemote with watch streams piped to the real server handler, and a handle to
+// break them.
+func NewRemoteWithWatch(backend state.CoreState, opts ...client.AdapterOption) (state.CoreState, *Transport) {
+	t := &Transport{}
+	return client.NewAdapter(&shim{srv: server.NewState(backend), transport: t}, opts...), t
 }
 
 // NewRemote returns a state handle that reaches backend through the client
